@@ -1372,3 +1372,38 @@ def tuple_entries_tested_by_position(ctx):
         yield Ob("C06.R14", ["C06", "C07", "C10", "C01"], "Index | membership tests on tuple entries", True,
                  "no entry of a tuple-valued map is membership-tested through a subscript (entries are unpacked)", "tinyflux/index.py:0",
                  nontrivial=False)
+
+
+@rule("C06.R15", ["C06", "C01", "C07", "C02", "C03"], min_instances=2, design="3.6")
+def every_pair_is_indexed(ctx):
+    """The helpers that index a point's tags / fields enter every (key, value) pair: their loops have no `continue`/`break`, and the stores are conditional only on membership tests against the container (the create-or-append decision), never on the value or key itself -- a rebuilt and an incrementally maintained index, and the scan path, treat None, empty and falsy values like any other."""
+    fl = fields_of(ctx)
+    n = 0
+    for h in ctx.prog.methods_of("Index"):
+        if not h.name.startswith("_insert") and h.name not in ("_index_tags", "_index_fields"):
+            continue
+        dw = direct_writes(h)
+        maps = [a for a in fl.maps if a in dw]
+        if not maps:
+            continue
+        for lp in [x for x in walk_local(h.node) if isinstance(x, ast.For)]:
+            if not (isinstance(lp.iter, ast.Call) and call_name(lp.iter) == "items" and isinstance(lp.target, ast.Tuple)):
+                continue
+            n += 1
+            bad = []
+            for x in walk_local(lp):
+                if isinstance(x, (ast.Continue, ast.Break, ast.Return)):
+                    bad.append(f"`{type(x).__name__.lower()}` at line {x.lineno} skips pairs of the point")
+            stores = [s_ for s_ in walk_local(lp) if (isinstance(s_, ast.Assign) and isinstance(s_.targets[0], ast.Subscript))
+                      or (isinstance(s_, ast.Call) and call_name(s_) in ("append", "add", "setdefault"))]
+            for s_ in stores:
+                for c in guard_clauses(guards(s_, stop=lp)):
+                    for atom, pol in c:
+                        if atom.startswith("in(") and "self._" in atom:
+                            continue
+                        bad.append(f"`{norm(s_, 50)}` is conditional on `{atom}`: pairs failing it are not indexed, so the index answers "
+                                   f"differently from a scan of storage")
+            yield Ob("C06.R15", ["C06", "C01", "C07", "C02", "C03"], f"{h.qual} | every pair is indexed{occ(h, lp)}", not bad,
+                     "; ".join(sorted(set(bad))[:2]) if bad else "stores conditional on container membership only", ctx.prog.loc(lp))
+    if n < 2:
+        raise AnalysisError("C06.R15", f"expected the tag and field indexing loops in Index, found {n}")
